@@ -7,6 +7,6 @@ CONSTANTS
   WorkUnits = {1, 2, 9}
   MaxCounter = 1
 CONSTRAINT Bounded
-INVARIANTS Stable Injective ModulePartsPermanent TempNamesDistinct InternOK CursorOK MarkedSinceOK ReclaimedOK
+INVARIANTS Stable Injective ModulePartsPermanent PermanentFlagged TempNamesDistinct InternOK CursorOK MarkedSinceOK ReclaimedOK
 PROPERTIES NoLiveReclaim FreshAfterReclaim DeadStaysDead
 CHECK_DEADLOCK FALSE
